@@ -61,7 +61,7 @@ def msg_len_terms(fx):
     if len(f) != 1:
         raise AnchorLost("ChitchatMessage::serialized_len", "not found")
     f = f[0]
-    eng = sym.Engine(fx, inline_only=set())
+    eng = sym.Engine(fx, inline_only=set(getattr(fx, "new_helpers", ())))
     out = {}
     for row in eng.table(f["id"], arg_terms={1: ("ptr", ("S", "msg"), ())}):
         if row.exit != "return":
@@ -246,7 +246,7 @@ def r07_3(ctx, rep, roles):
     fl = [f for f in fx.fns.values() if f.get("impl_self") == CSW and f.get("inputs") == ["&mut " + CSW] and f.get("output") == "()"]
     fin = [f for f in fx.fns.values() if f.get("impl_self") == CSW and f.get("inputs") == [CSW]]
     rep.anchor("upper bound", where(ub))
-    eng = sym.Engine(fx, inline_only=set())
+    eng = sym.Engine(fx, inline_only=set(getattr(fx, "new_helpers", ())))
     SELF = ("obj", ("S", "self"))
 
     def canon(t):
@@ -324,7 +324,7 @@ def r07_4(ctx, rep, roles, snd):
     fx = ctx.fx
     # (a) stale_kvs: taken above the start version, sorted by version
     sk = roles.stale_kvs
-    eng = sym.Engine(fx, inline_only=set())
+    eng = sym.Engine(fx, inline_only=set(getattr(fx, "new_helpers", ())))
     STALE = models.STALE
     ok_sort = ok_src = False
     for row in eng.table(sk["id"], arg_terms={1: ("ptr", ("S", "stale"), ())}):
